@@ -116,10 +116,14 @@ def run(chk: Check) -> None:
             delivered: list = []
             protocol = protocol_factory(delivered.append, disable_qos=True, enforce_include_list=enforce_impl, exclude_list=exc_l, include_list=inc)
             transport = FakeTransport(protocol, loop, active)
-            if active is not None:
-                protocol.connection_made(transport, ramses=True)
-                protocol.resume_writing()
-            eff_active = protocol._active_hgi
+            # (also when the transport could not identify its gateway - a stick that never echoed the signature)
+            protocol.connection_made(transport, ramses=True)
+            protocol.resume_writing()
+            # the active gateway is the id the transport identified - unless that id is block-listed; nothing else
+            eff_active = active if (active is not None and active not in block) else None
+            if protocol._active_hgi != eff_active:
+                chk.violation("active_gateway:" + ("installed-unidentified" if active is None else "wrong"), f"known={known} block={block}: the transport identified "
+                              f"{active} as its gateway; the protocol treats {protocol._active_hgi} as the active gateway", {"op": "filter.active", "known": known, "block": block, "active": active})
             # decision level, exhaustive
             for src in UNIVERSE:
                 for dst in UNIVERSE:
